@@ -2,6 +2,8 @@
 
 SIM = "deterministic simulation (seeded tape, fault injection), oracle = executable reference model"
 
+SIMV = "deterministic simulation: virtual clock (testing/synctest), baton scheduler over lock and service park points, scripted fault-injecting service and cache, oracle = reference model over the recorded history"
+
 ENGINES = [
     {"name": "dbworld", "path": "sim/dbworld", "serves_properties": ["C01", "C02", "C03", "C05", "C06", "C08", "C09", "C14"],
      "kind_free_text": "in-process simulation of the server side: real db/acl/audit/server/client code, scripted tailnet identity, fault-injecting audit sink, in-process HTTP transport with request corruption, clean restarts; every choice from one seeded tape"},
@@ -46,6 +48,21 @@ CLAIMS = {
     "C16": dict(engine="storeworld", design_ref="5/C16", technique="deterministic simulation under a virtual clock with baton-scheduled concurrent callers and a service that answers, fails, is slow or hangs forever",
                 text="Concurrent callers through all four entry points with deadlines, scripted cancellations or no deadline; oracles: gate (panic / error, zero requests), at most one in-flight lookup request per name, every successful caller's handle reads served bytes, failed lookups install nothing, no automatic retry (request counts bounded by callers plus aborts by foreign contexts), five-minute safety limit on every request led by a no-deadline caller and prompt return afterwards, no failure by proxy, and the looked-up name is polled and cached afterwards.",
                 note="a caller that joined another caller's flight is governed by that flight's context (observed: it can outlive its own deadline; not part of the statement)"),
+    "C11": dict(engine="storeworld", design_ref="5/C11", technique=SIMV,
+                text="After every refresh call that returns nil (explicit or the poller's), every name known when its epoch began and still known must be at a version that was active at the service at some stamp of the epoch window, in the cache document too; per epoch each name is requested at most once (coalescing); after failures values stay really-served; with a healthy service one final refresh must succeed and bring handles, document and service into agreement. A separate cadence scenario runs the real time.Ticker under the virtual clock.",
+                note="names first known or first pinned during an in-flight poll are exempt for that poll, as the statement says"),
+    "C12": dict(engine="storeworld", design_ref="5/C12", technique=SIMV + "; race detector on free-running replicas",
+                text="Reader tasks read handles while polls, lookups, expiry sweeps and Close are parked at arbitrary lock and service points. A read that issues a request or a cache write, or that waits for a lock whose holder is parked at the service or blocked on a timer, is a violation (decided from the scheduler's lock-ownership table, no watchdog). Bytes must decode to (that name, a served version) and be whole; per reader the versions must follow the install log and never precede an install completed before the read began. Second stage: same workload unscheduled under -race.",
+                note="interleavings at lock/seam granularity; torn reads outside any lock are the race stage's"),
+    "C13": dict(engine="storeworld", design_ref="5/C13", technique=SIMV,
+                text="Every document the store writes must be one JSON object of the documented shape holding each known name with bytes of exactly that (name, version); after every shutdown a probe store is started from the last good document with a dead service and must come up without a request and serve exactly the document, and a FileClient on the same bytes must agree; cache Write/Read faults must be tolerated; corrupt and arbitrary cache contents must never panic or fail a start.",
+                note="atomic replacement of the cache file under kills is not yet decided here (crashfs)"),
+    "C15": dict(engine="storeworld", design_ref="5/C15", technique=SIMV,
+                text="Updaters over watched secrets with tape-chosen interleavings of installs, Gets and registrations: a Get that begins after an install of a different version completed must rebuild (no lost update); a rebuild is allowed only if an install landed since the previous Get began; the bytes handed to the builder must be the newest installed before the Get or newer; builder failure keeps the old value and sets Err; each replaced closer is closed exactly once, the current one never.",
+                note="overlapping Gets on one updater are judged by the weak invariants only"),
+    "C19": dict(engine="storeworld", design_ref="5/C19", technique=SIMV + "; restart as a generated operation",
+                text="Whenever a name disappears from the cache document it must be undeclared, an expiry age must be set, the store clock minus the model's last access must exceed the age (1 s slack), no handle or watcher may have been handed out by this process, and the write must happen inside a poll; every document written after a read must carry lastAccess >= that read's second; restarts re-apply the rule with the persisted stamps.",
+                note="the converse (eligible implies dropped) is not claimed, only counted as a reach probe"),
     "C14": dict(engine="dbworld", design_ref="5/C14", technique="deterministic simulation: seeded baton schedules over lock/seam park points, histories decided by porcupine (linearizability) against the map model; race detector on free-running replicas of the workload",
                 text="Small concurrent histories from 2-4 clients on shared names, every interleaving decision (which parked goroutine proceeds at each mutex acquisition, audit write, identity lookup, transport hop) drawn from the tape; invoke/return stamped with a global sequence number; porcupine decides each history exactly against the sequential model with the final state appended. A second stage runs the same workloads unscheduled under -race.",
                 note="park points are lock acquisitions and seams: code between two park points runs atomically in the baton stage; data races are the race stage's job"),
